@@ -20,7 +20,9 @@ inductive HEnd where
 /-- parsers the library delegates to (encoding/json, net/textproto): parameters of the model -/
 structure SpecialParsers where
   jsonOK : Bytes → Bool          -- the end-of-stream payload unmarshals as connectEndStreamMessage
-  trailerOK : Bytes → Bool       -- the gRPC-Web trailer payload parses as a MIME header block
+  trailerOK : Bytes → Bool       -- the gRPC-Web trailer payload parses as a MIME header block, or
+                                 -- fails with an error that wraps io.EOF (the empty block):
+                                 -- either way `Receive` reports the end of the request stream
 
 /-- `connectStreamingUnmarshaler.Unmarshal` / `grpcUnmarshaler.Unmarshal` on a special envelope -/
 def specialEnvelope (p : Proto) (sp : SpecialParsers) (fl : UInt8) (data : Bytes) : HEnd :=
